@@ -699,9 +699,21 @@ var c03Ungofmt = []string{
 	"package main\n\nimport (\n\t\"os\" // o\n\t\"math\" // m\n\t\"fmt\" // f\n)\n\n// main prints.\nfunc main() {\n\tfmt.Fprintln(os.Stderr, math.Pi*1E2, 0XFF) // numbers\n}\n",
 }
 
+// every form of type spec -- defined type, alias, generic defined type, generic alias (type parameters AND "=";
+// accepted by go/parser) -- in each place a type spec can stand: alone at top level, in a parenthesised
+// group, in a function body (alone and grouped), with one / several type parameters and the constraint forms;
+// no comments between the tokens of a spec (the sprinkling variants add their own)
+var c03TypeSpecs = []string{
+	"package a\n\ntype B[P any] struct{ x P }\n\ntype A[P any] = B[P]\n\ntype D = B[int]\n\ntype E B[int]\n\nvar _ A[int]\n",
+	"package a\n\ntype (\n\tB[P any]            struct{ x P }\n\tM[K comparable, V any] map[K]V\n\n\t// A is B.\n\tA[P any] = B[P]\n\tN[K comparable, V any] = M[K, V] // N is M\n\tO[V any] = M[string, V]\n\tD = B[int]\n\tE B[int]\n)\n\ntype S[T ~int | ~string, U interface{ ~[]T }] = M[T, U]\n",
+	"package a\n\ntype B[P any] []P\n\nfunc f() {\n\ttype L[P any] = B[P]\n\ttype (\n\t\tL2[P, Q any] = map[*P]B[Q]\n\t\tL3 = L2[int, int]\n\t\tL4[P any] B[P]\n\t)\n\tvar x L[int] // x\n\t_ = x\n\tfor {\n\t\ttype In[T interface{ m() }] = func(T) B[T]\n\t}\n}\n",
+	// not in gofmt form: everything on few lines, odd spacing
+	"package a\ntype B[P any] struct{x P};type A [ P any ]=B [ P ]\ntype(C[P any]=A[P];D[P any,Q any]=struct{a A[P];c C[Q]})\nfunc g(){type L[P any]=D[P,P];var _ L[int]}\n",
+}
+
 func c03Prop(c *Ctx) {
 	c03Scratch = filepath.Join(c.Verif, ".build")
-	c.Res.Rule = "hand corpus + $GOROOT/src sample, each in the variants: as is, CRLF, BOM, space-indented, comments and blank lines sprinkled (mangled), every blank line doubled, a block comment after every line, number literals with upper-case prefixes and exponents, runs of import specs reversed; each printed through decorator.Fprint, Restorer.Fprint, FileRestorer.Fprint and RestoreFile + format.Node with one FileRestorer reused for several files that are printed afterwards, without and with import management; compared with gofmt(input) on tokens and with the input on comment texts; non-trivial = distinct (file, variant)"
+	c.Res.Rule = "hand corpus (with every form of type spec, generic aliases included, at top level, grouped and in function bodies) + $GOROOT/src sample, each in the variants: as is, CRLF, BOM, space-indented, comments and blank lines sprinkled (mangled), every blank line doubled, a block comment after every line, number literals with upper-case prefixes and exponents, runs of import specs reversed; each printed through decorator.Fprint, Restorer.Fprint, FileRestorer.Fprint and RestoreFile + format.Node with one FileRestorer reused for several files that are printed afterwards, without and with import management; compared with gofmt(input) on tokens and with the input on comment texts; non-trivial = distinct (file, variant)"
 	var srcs []string
 	srcs = append(srcs, sinkSources...)
 	srcs = append(srcs, linkExtra...)
@@ -714,6 +726,7 @@ func c03Prop(c *Ctx) {
 	variants := []string{"asis", "crlf", "bom", "spaces", "mangled", "blank3", "dense", "selgaps", "upnum", "revimports"}
 	srcs = append(srcs, c08Sources...)
 	srcs = append(srcs, c03Ungofmt...)
+	srcs = append(srcs, c03TypeSpecs...)
 	// the files a reused FileRestorer restores before and after the subject: hand corpus files with comments
 	var pool []string
 	for _, p := range append(append([]string{}, c03Ungofmt...), sinkSources...) {
